@@ -95,6 +95,9 @@ pub struct Result_<E> {
     pub violations: Violations,
     pub samples: Vec<Vec<E>>,
     pub reexpanded: u64,
+    pub self_loops: u64,
+    /// (expanded, total) nodes of the level that was abandoned when the wall cap was hit.
+    pub partial_level_nodes: Option<(usize, usize)>,
 }
 
 impl<E: Serialize> Result_<E> {
@@ -112,6 +115,10 @@ impl<E: Serialize> Result_<E> {
         m.insert("outcome_histogram".into(), json!(self.outcomes));
         m.insert("distinct_outcomes".into(), json!(self.outcomes.len()));
         m.insert("reexpanded_with_fewer_deviations".into(), json!(self.reexpanded));
+        m.insert("self_loop_transitions".into(), json!(self.self_loops));
+        if let Some((a, b)) = self.partial_level_nodes {
+            m.insert("abandoned_level".into(), json!({"depth": self.completed_depth + 1, "expanded_nodes": a, "of": b, "reason": "wall cap"}));
+        }
         m.insert("rule".into(), json!(rule));
         m.insert("samples".into(), json!(self.samples));
         m.insert("violating_instances".into(), json!(self.violations.total()));
@@ -169,6 +176,8 @@ pub fn explore<S: System>(id: &str, make: impl Fn() -> S + Sync, bounds: Bounds)
         violations: Violations::default(),
         samples: vec![],
         reexpanded: 0,
+        self_loops: 0,
+        partial_level_nodes: None,
     };
     let w = crate::workers();
 
@@ -180,6 +189,7 @@ pub fn explore<S: System>(id: &str, make: impl Fn() -> S + Sync, bounds: Bounds)
     struct Local<E> {
         emits: Vec<Emit<E>>,
         transitions: u64,
+        self_loops: u64,
         outcomes: BTreeMap<String, u64>,
         violations: Violations,
     }
@@ -193,6 +203,8 @@ pub fn explore<S: System>(id: &str, make: impl Fn() -> S + Sync, bounds: Bounds)
             break;
         }
         let next = AtomicUsize::new(0);
+        let expired = std::sync::atomic::AtomicBool::new(false);
+        let deadline = start + bounds.wall;
         let merged: Mutex<Vec<Local<S::Ev>>> = Mutex::new(vec![]);
         let fr = &frontier;
         let make_ref = &make;
@@ -200,10 +212,17 @@ pub fn explore<S: System>(id: &str, make: impl Fn() -> S + Sync, bounds: Bounds)
         std::thread::scope(|sc| {
             for _ in 0..w.min(fr.len()).max(1) {
                 sc.spawn(|| {
-                    let mut local = Local { emits: vec![], transitions: 0, outcomes: BTreeMap::new(), violations: Violations::default() };
+                    let mut local = Local { emits: vec![], transitions: 0, self_loops: 0, outcomes: BTreeMap::new(), violations: Violations::default() };
                     loop {
                         let i = next.fetch_add(1, Ordering::Relaxed);
                         if i >= fr.len() {
+                            break;
+                        }
+                        if Instant::now() > deadline {
+                            // Wall cap hit inside a level: the level is abandoned (violations found
+                            // so far are real executions and are kept), the run is not exhaustive
+                            // beyond the previous depth.
+                            expired.store(true, Ordering::Relaxed);
                             break;
                         }
                         let node = &fr[i];
@@ -223,34 +242,52 @@ pub fn explore<S: System>(id: &str, make: impl Fn() -> S + Sync, bounds: Bounds)
                             })
                             .filter(|(_, dv)| *dv <= bounds.devs)
                             .collect();
-                        let mut sys = Some(sys);
+                        // `cur` is a live system known to be in this node's state. An event that
+                        // leaves the canonical key unchanged (a self-loop: a rejected input, a no-op)
+                        // hands the object on to the next event instead of forcing a rebuild; this is
+                        // sound under the same assumption deduplication already makes (equal keys
+                        // have equal futures).
+                        let mut cur = Some(sys);
                         let n_evs = todo.len();
                         for (j, (ev, dv)) in todo.iter().enumerate() {
                             let dv = *dv;
-                            let mut s2 = if j + 1 == n_evs {
-                                sys.take().unwrap()
-                            } else if let Some(f) = sys.as_ref().unwrap().fork() {
-                                f
-                            } else {
-                                rebuild(make_ref, &node.hist, events_ref)
+                            let mut s2 = match cur.take() {
+                                Some(s) if j + 1 == n_evs => s,
+                                Some(s) => match s.fork() {
+                                    Some(f) => {
+                                        cur = Some(s);
+                                        f
+                                    }
+                                    None => s,
+                                },
+                                None => rebuild(make_ref, &node.hist, events_ref),
                             };
                             let mut hist = node.hist.clone();
                             hist.push(ev.clone());
                             local.transitions += 1;
                             events_ref.fetch_add(1, Ordering::Relaxed);
+                            let node_key = node.key;
                             let stepped = panics::catch(move || {
                                 let out = s2.step(ev);
                                 let key = if out.dead { 0 } else { crate::hash128(&s2.canon()) };
-                                (out, key)
+                                let back = if !out.dead && key == node_key { Some(s2) } else { None };
+                                (out, key, back)
                             });
                             let wit = |detail: Value| json!({"history": hist, "detail": detail});
                             match stepped {
-                                Ok((out, key)) => {
+                                Ok((out, key, back)) => {
+                                    if cur.is_none() {
+                                        cur = back;
+                                    }
                                     *local.outcomes.entry(out.outcome).or_insert(0) += 1;
                                     for mut v in out.violations {
                                         v.witness = wit(v.witness);
                                         v.cost = (dv as u64) * 1000 + hist.len() as u64;
                                         local.violations.push(v);
+                                    }
+                                    if key == node_key && !out.dead {
+                                        local.self_loops += 1;
+                                        continue; // same state, already seen with <= deviations
                                     }
                                     if !out.dead {
                                         local.emits.push(Emit { key, devs: dv, hist });
@@ -275,13 +312,20 @@ pub fn explore<S: System>(id: &str, make: impl Fn() -> S + Sync, bounds: Bounds)
             }
         });
         let mut emits: Vec<Emit<S::Ev>> = vec![];
+        let level_expired = expired.load(Ordering::Relaxed);
         for l in merged.into_inner().unwrap() {
             res.transitions += l.transitions;
+            res.self_loops += l.self_loops;
             for (k, v) in l.outcomes {
                 *res.outcomes.entry(k).or_insert(0) += v;
             }
             res.violations.merge(l.violations);
             emits.extend(l.emits);
+        }
+        if level_expired {
+            res.exhaustive = false;
+            res.partial_level_nodes = Some((next.load(Ordering::Relaxed).min(frontier.len()), frontier.len()));
+            break;
         }
         emits.sort_by(|a, b| (a.key, a.devs, &a.hist).cmp(&(b.key, b.devs, &b.hist)));
         let mut nextf: Vec<Node<S::Ev>> = vec![];
